@@ -102,7 +102,7 @@ func checkFrameLen(o *Out, t *Type, v *Val, r EncResult, pid string) {
 	wire := int(getUint(A[H:H+4], f.E))
 	obj := int(r.Val.Fs[len(f.Hdr)].N)
 	if wire != bodyLen || obj != bodyLen {
-		o.violate(Violation{Property: "C04", Kind: "direct", What: "body-length field differs from the number of body bytes emitted",
+		o.violate(Violation{Property: pid, Kind: "direct", What: "body-length field differs from the number of body bytes emitted",
 			Case: "enc - " + v.String(), Expected: fmt.Sprint(bodyLen), Observed: fmt.Sprintf("wire=%d object=%d", wire, obj), Key: "len:" + t.QName()})
 	}
 	// independent body bytes: the body encoded alone into a fresh buffer
@@ -110,7 +110,7 @@ func checkFrameLen(o *Out, t *Type, v *Val, r EncResult, pid string) {
 	if body.K == 'm' {
 		rb := goEnc(body, nil, BufMode{})
 		if rb.Class == "ok" && !bytes.Equal(rb.Appended, A[H+4:len(A)-f.CksW]) {
-			o.violate(Violation{Property: "C04", Kind: "direct", What: "frame body bytes differ from the body encoded alone",
+			o.violate(Violation{Property: pid, Kind: "direct", What: "frame body bytes differ from the body encoded alone",
 				Case: "enc - " + v.String(), Key: "body:" + t.QName()})
 		}
 	}
@@ -221,7 +221,56 @@ func init() {
 		g.r.Shuffle(len(all), func(i, j int) { all[i], all[j] = all[j], all[i] })
 		var seqBuf []byte
 		var seqWant []byte
-		for _, v := range all {
+		// values whose encode FAILS part-way (absent extension under an unregistered key, a list one longer than its count
+		// prefix allows): a failed encode must leave nothing behind that a later encode can pick up
+		var failing []*Val
+		for _, t := range schema.Types {
+			for i, op := range t.fieldOps() {
+				switch {
+				case op.K == "union" && len(failing) < 40:
+					v := g.msg(t.ID, true, 0)
+					kop := t.fieldOps()[op.Key]
+					if kop.K == "fixed" {
+						v.Fs[op.Key] = &Val{K: 's', S: []byte("~~~")[:min(3, kop.N)]}
+					} else {
+						v.Fs[op.Key] = &Val{K: 'n', N: 64999 & maxOf(kop.W)}
+					}
+					v.Fs[i] = &Val{K: 'z'}
+					failing = append(failing, v)
+				case op.K == "nums" && op.CW == 2 && len(failing) < 60:
+					v := g.msg(t.ID, true, 0)
+					l := &Val{K: 'N'}
+					for k := 0; k < 65536; k++ {
+						l.Ns = append(l.Ns, uint64(k)&maxOf(op.W))
+					}
+					v.Fs[i] = l
+					failing = append(failing, v)
+				}
+			}
+		}
+		// frames holding such bodies
+		for _, t := range frameTypes() {
+			tb := schema.Tables[t.Frame.Tbl]
+			for _, fv := range failing {
+				for _, e := range tb.Entries {
+					if e.Ty == fv.Ty {
+						v := g.msgWithKey(t.ID, e, true)
+						v.Fs[len(t.Frame.Hdr)+1] = fv
+						failing = append(failing, v)
+					}
+				}
+				if len(failing) > 120 {
+					break
+				}
+			}
+		}
+		for n, v := range all {
+			if n%5 == 0 && len(failing) > 0 {
+				fv := failing[(n/5)%len(failing)]
+				begin("failing encode")
+				goEnc(fv, g.prefix(), g.mode()) // implementation only: the outcome is C17/C18's subject
+				o.stat("failing-encode-interleaved")
+			}
 			t := schema.Types[v.Ty]
 			fresh := goEnc(v, nil, BufMode{})
 			pre := g.prefix()
@@ -330,8 +379,15 @@ func init() {
 		// n back-to-back messages of mixed types recovered by n successive decodes from ONE buffer
 		buf := mkBuffer(stream, BufMode{Consumed: 5, Spare: 100, Stale: true})
 		okAll := true
+		reused := map[int]any{}
 		for i, want := range streamVals {
 			obj := typeCtors[want.Ty]()
+			if i%2 == 1 { // every other message goes into ONE long-lived receiver per type (a read loop reusing its object)
+				if reused[want.Ty] == nil {
+					reused[want.Ty] = typeCtors[want.Ty]()
+				}
+				obj = reused[want.Ty]
+			}
 			c, _ := guard(func() error { return obj.(decoder).Decode(buf) })
 			if c != "ok" || !valEq(readObj(obj), want) {
 				o.violate(Violation{Property: "C07", Kind: "direct", What: fmt.Sprintf("stream of %d messages: message %d not recovered", len(streamVals), i),
